@@ -33,6 +33,9 @@ func ZZ_C16_oprf_base_mode_output_independent_of_blind() {
 	srv := Server{server{p, sk}}
 	cl := Client{client{p}}
 	n := zzPick("batch", 1, 2)
+	if zzThorough() {
+		n = zzPick("batch", 1, 2, 3)
+	}
 	inputs := zzInputs(n)
 	blinds := make([]Blind, n)
 	for i := range blinds {
